@@ -134,6 +134,16 @@ def Within : LState → List LLabel → Prop
   | _, [] => True
   | ls, l :: rest => ls.pc ≠ .idle ∧ ∃ m, lstep ls l = some m ∧ Within m rest
 
+theorem within_lrun : ∀ (labels : List LLabel) (ls : LState), Within ls labels → (lrun ls labels).isSome := by
+  intro labels
+  induction labels with
+  | nil => intro ls _; rfl
+  | cons l rest ih =>
+    intro ls hw
+    obtain ⟨-, m, hm, hw'⟩ := hw
+    simp only [lrun, hm]
+    exact ih m hw'
+
 /-- the label sequences of one call of push with current guess `h` -/
 inductive PushPath (n : Nat) : Nat → List LLabel → Prop
   | nil (h) : PushPath n h []
@@ -193,7 +203,7 @@ theorem push_body_exact (fuel s n : Nat) (cfg : Int) (hnode : n ≠ 0)
     (e : Env) (h : Nat) (hE : PushEnv s n cfg h e) :
     (∃ o, exec fuel body e [] = .ok o ∧ o.ctl = .blocked) ∧
     (∀ rest, ∃ o, exec fuel body e (enc h :: rest) = .ok o ∧ o.ctl = .brk ∧
-      o.events.flatMap (absEv .push s) = [.pushSt n h, .pushCas n h h]) ∧
+      o.events.flatMap (absEv .push s) = [.pushSt n h, .pushCas n h h] ∧ o.env.vars "head" = some (enc h)) ∧
     (∀ cur rest, cur ≠ h → ∃ o, exec fuel body e (enc cur :: rest) = .ok o ∧ o.ctl = .normal ∧ o.inp = rest ∧
       o.events.flatMap (absEv .push s) = [.pushSt n h, .pushCas n h cur] ∧ PushEnv s n cfg cur o.env) := by
   simp only [Gen.Src.«_cds_lfs_push», block, firstLoop, Option.some.injEq] at hb
@@ -213,19 +223,21 @@ theorem push_loop_converse (fuel s n : Nat) (cfg : Int) (hnode : n ≠ 0)
     ∀ (h : Nat) (labels : List LLabel), PushPath n h labels →
       ∃ inp, (∀ v ∈ inp, (dec v).isSome) ∧ ∀ k e acc, labels.length ≤ 2 * k → PushEnv s n cfg h e →
         ∃ out, iterate (exec fuel body) k e inp acc = .ok out ∧ ∃ evs, out.events = acc ++ evs ∧
-          labels <+: evs.flatMap (absEv .push s) := by
+          labels <+: evs.flatMap (absEv .push s) ∧
+          (out.ctl = .blocked ∨ out.ctl = .fuel ∨ (out.ctl = .normal ∧ ∃ hv, out.env.vars "head" = some (enc hv))) := by
   intro h labels hp
   induction hp with
   | nil h =>
     refine ⟨[], by simp, ?_⟩
     intro k e acc _ hE
     cases k with
-    | zero => exact ⟨_, rfl, [], by simp, List.nil_prefix⟩
+    | zero => exact ⟨_, rfl, [], by simp, List.nil_prefix, .inr (.inl rfl)⟩
     | succ k =>
       obtain ⟨⟨o, ho, hctl⟩, -, -⟩ := push_body_exact fuel s n cfg hnode body hb e h hE
       rcases o with ⟨oev, oenv, oinp, octl⟩
       simp only at hctl; subst hctl
-      exact ⟨⟨acc ++ oev, oenv, oinp, .blocked⟩, by simp only [iterate, ho, bind, Except.bind], oev, rfl, List.nil_prefix⟩
+      exact ⟨⟨acc ++ oev, oenv, oinp, .blocked⟩, by simp only [iterate, ho, bind, Except.bind], oev, rfl,
+        List.nil_prefix, .inl rfl⟩
   | st h =>
     refine ⟨[enc h], by simp, ?_⟩
     intro k e acc hk hE
@@ -233,11 +245,11 @@ theorem push_loop_converse (fuel s n : Nat) (cfg : Int) (hnode : n ≠ 0)
     | zero => simp at hk
     | succ k =>
       obtain ⟨-, hok, -⟩ := push_body_exact fuel s n cfg hnode body hb e h hE
-      obtain ⟨o, ho, hctl, hev⟩ := hok []
+      obtain ⟨o, ho, hctl, hev, hhd⟩ := hok []
       rcases o with ⟨oev, oenv, oinp, octl⟩
-      simp only at hctl hev; subst hctl
+      simp only at hctl hev hhd; subst hctl
       exact ⟨⟨acc ++ oev, oenv, oinp, .normal⟩, by simp only [iterate, ho, bind, Except.bind], oev, rfl,
-        by rw [hev]; exact ⟨[_], rfl⟩⟩
+        by rw [hev]; exact ⟨[_], rfl⟩, .inr (.inr ⟨rfl, h, hhd⟩)⟩
   | ok h =>
     refine ⟨[enc h], by simp, ?_⟩
     intro k e acc hk hE
@@ -245,11 +257,11 @@ theorem push_loop_converse (fuel s n : Nat) (cfg : Int) (hnode : n ≠ 0)
     | zero => simp at hk
     | succ k =>
       obtain ⟨-, hok, -⟩ := push_body_exact fuel s n cfg hnode body hb e h hE
-      obtain ⟨o, ho, hctl, hev⟩ := hok []
+      obtain ⟨o, ho, hctl, hev, hhd⟩ := hok []
       rcases o with ⟨oev, oenv, oinp, octl⟩
-      simp only at hctl hev; subst hctl
+      simp only at hctl hev hhd; subst hctl
       exact ⟨⟨acc ++ oev, oenv, oinp, .normal⟩, by simp only [iterate, ho, bind, Except.bind], oev, rfl,
-        by rw [hev]; exact List.prefix_refl _⟩
+        by rw [hev]; exact List.prefix_refl _, .inr (.inr ⟨rfl, h, hhd⟩)⟩
   | retry h cur rest hne _ ih =>
     obtain ⟨inp', hwt, hloop⟩ := ih
     refine ⟨enc cur :: inp', by simpa using hwt, ?_⟩
@@ -261,11 +273,36 @@ theorem push_loop_converse (fuel s n : Nat) (cfg : Int) (hnode : n ≠ 0)
       obtain ⟨o, ho, hctl, hinp, hev, hE'⟩ := hfail cur inp' hne
       rcases o with ⟨oev, oenv, oinp, octl⟩
       simp only at hctl hinp hev hE'; subst hctl; subst hinp
-      obtain ⟨out, hout, evs, hevs, hpre⟩ := hloop k oenv (acc ++ oev) (by simp at hk; omega) hE'
-      refine ⟨out, by simp only [iterate, ho, bind, Except.bind]; exact hout, oev ++ evs, by simp [hevs], ?_⟩
+      obtain ⟨out, hout, evs, hevs, hpre, hfin⟩ := hloop k oenv (acc ++ oev) (by simp at hk; omega) hE'
+      refine ⟨out, by simp only [iterate, ho, bind, Except.bind]; exact hout, oev ++ evs, by simp [hevs], ?_, hfin⟩
       rw [List.flatMap_append, hev]
       obtain ⟨tl, htl⟩ := hpre
       exact ⟨tl, by simp [← htl]⟩
+
+/-- **Converse for `_cds_lfs_push`**: every path of the local automaton from the call's entry pc that stays within
+the call is a prefix of the abstraction of a source run (for a sufficient loop budget, under a well-typed oracle) -/
+theorem push_converse (env : Env) (s n : Nat) (cfg : Int) (r : Lfs.Ret)
+    (hs : env.vars "u_s" = some (.ptr (.obj s))) (hn : env.vars "node" = some (.ptr (.obj n)))
+    (hcfg : env.priv (.glob "CONFIG_RCU_EMIT_LEGACY_MB") = some (.int cfg))
+    (hnode : n ≠ 0) (labels : List LLabel) (hw : Within ⟨.pushSt n 0, r⟩ labels) :
+    ∃ fuel inp out, (∀ v ∈ inp, (dec v).isSome) ∧ exec fuel Gen.Src.«_cds_lfs_push» env inp = .ok out ∧
+      labels <+: out.events.flatMap (absEv .push s) := by
+  have hp := pushPath_of_within n labels.length labels 0 r (Nat.le_refl _) hw
+  obtain ⟨inp, hwt, hloop⟩ := push_loop_converse labels.length s n cfg hnode _
+    (by simp [Gen.Src.«_cds_lfs_push», block, firstLoop]; rfl) 0 labels hp
+  refine ⟨labels.length, inp, ?_⟩
+  sexec [Gen.Src.«_cds_lfs_push», Gen.Src.«___cds_lfs_empty_head»]
+  generalize hE : iterate _ _ _ _ _ = rr
+  obtain ⟨o, rfl, evs, hev, hpre, hfin⟩ : ∃ o, rr = .ok o ∧ ∃ evs, o.events = [] ++ evs ∧
+      labels <+: evs.flatMap (absEv .push s) ∧
+      (o.ctl = .blocked ∨ o.ctl = .fuel ∨ (o.ctl = .normal ∧ ∃ hv, o.env.vars "head" = some (enc hv))) := by
+    rw [← hE]
+    exact hloop labels.length _ [] (by omega) (by sexec [PushEnv]; rfl)
+  simp only [List.nil_append] at hev
+  rcases hfin with hc | hc | ⟨hc, hv, hhd⟩
+  · sexec; exact hwt
+  · sexec; exact hwt
+  · by_cases h0 : hv = 0 <;> sexec <;> exact hwt
 
 end LfsR
 end UrcuVerif.Src
